@@ -156,6 +156,8 @@ def case_list(tier):
             for shape in shapes:
                 for axis in [None] + list(range(len(shape))):
                     cases.append((kind, "single", op, 1, shape, axis))
+            if kind == "xarray" and op in ("sum", "max", "mean"):
+                cases.append((kind, "multi", op, 2, (2, 2), "transposed"))
         for k in range(1 if kind == "numpy" else 2, kmax + 1):
             for shape in shapes:
                 if k > 4 and shape != (2,):
@@ -301,7 +303,11 @@ def apply_case(case, inputs):
     """Run the real backend for `case` on `inputs` (object arrays of Q or Fraction). Returns (got, want) as
     (shape, flat list) pairs of python values (Q / Fraction)."""
     kind, fam, op = case[0], case[1], case[2]
+    snapshot_ = [a.copy() for a in inputs]
     W = [wrap(kind, a, labelled=(case[-1] == "labelled")) for a in inputs]
+    if case[-1] == "transposed" and kind == "xarray":
+        # the second operand stores the same named dimensions in the other order: operands are combined by name
+        W[1] = xr.DataArray(np.ascontiguousarray(inputs[1].T), dims=DIMS[: inputs[1].ndim][::-1])
     f = getattr(backends, op)
     if fam == "multi":
         got = f(*W, **red_kwargs(kind, op))
@@ -362,6 +368,10 @@ def apply_case(case, inputs):
     else:
         raise KeyError(fam)
     ga = unwrap(got)
+    # the operands belong to the caller: a later call that receives the same array must see the same data
+    for k_, (a_, before_) in enumerate(zip(inputs, snapshot_)):
+        if a_.shape != before_.shape or any(x is not y for x, y in zip(a_.flatten(), before_.flatten())):
+            return (("operand", k_, "modified"), [1]), (("operand", k_, "intact"), [0])
     return (tuple(ga.shape), list(ga.flatten())), (tuple(shape), list(want))
 
 
